@@ -5,6 +5,7 @@ import PV.Lemmas.SocketCalls
 All theorems are about the model `PV.Model.Socket` of `psocket.c` (tied to the C code by the
 scripted differential runs of `tools/props/c09.py`) and hold for **every** script of native results.
 -/
+set_option linter.unusedSimpArgs false
 namespace PV.Socket
 open PV.Generated.Socket
 
@@ -131,6 +132,81 @@ theorem eintr_eagain_transparent_io_condition_wait (s : Sock) (cond : Int) (scri
     apply bind_full_congr
     apply liftLoop_full
     exact pollLoop_dropPollEintr _ script e
+
+/-- `p_socket_connect`, any mode: `connect → EINTR` is answered by calling `connect` again; the result
+    equals the result on the script with those answers removed -/
+theorem eintr_eagain_transparent_connect (s : Sock) (addr : Addr) (script : Script) (e : Int) :
+    seen (call s (.connect addr) script e) =
+    seen (call s (.connect addr) (dropConnEintr script e).1 (dropConnEintr script e).2) := by
+  rw [seen_call, seen_call]
+  simp only [callM]
+  unfold connect
+  cases addr with
+  | null => rfl
+  | bad => cases hc : check s <;> rfl
+  | native sa =>
+    simp only []
+    cases hc : check s with
+    | some pe => rfl
+    | none =>
+      simp only []
+      apply bind_val_congr
+      apply liftLoop_full
+      exact connLoop_dropConnEintr _ script e
+
+/-- what is compared when `errno` may differ: the object, the return value and the error up to a stale native code -/
+def sameUpToStaleErrno (a b : Except Stop CallResult) : Prop :=
+  match a, b with
+  | .error x, .error y => x = y
+  | .ok x, .ok y =>
+    x.sock = y.sock ∧ x.out.ret = y.out.ret ∧
+    (match x.out.err, y.out.err with
+      | none, none => True
+      | some p, some q => p.eqv q
+      | _, _ => False)
+  | _, _ => False
+
+/-- … and, in the blocking wait that follows an in-progress `connect`, `poll → EINTR` answers are
+    invisible too (`connectAfter` is the part of `p_socket_connect` behind its `connect()` loop, see
+    `connect_blocking`).  Here `errno` cannot be handed over in the middle of the script, so the
+    comparison is up to the stale native code of the time-out error. -/
+theorem eintr_eagain_transparent_connect_wait (s : Sock) (r : Res) (evs : List Ev) (rest : Script) (errno : Int) :
+    sameUpToStaleErrno (connectAfter s r evs rest errno) (connectAfter s r evs (dropPollEintr rest errno).1 errno) := by
+  unfold connectAfter
+  by_cases h0 : r.ret = .ok 0
+  · simp [h0, sameUpToStaleErrno]
+  · simp only [h0, if_false]
+    by_cases hw : ioFromSystem errno = P_ERROR_IO_WOULD_BLOCK ∨ ioFromSystem errno = P_ERROR_IO_IN_PROGRESS
+    · simp only [hw, if_true]
+      cases hb : s.blocking with
+      | false => simp [sameUpToStaleErrno, failOut, PErr.eqv_refl]
+      | true =>
+        simp only [if_true]
+        have h1 := pollLoop_dropPollEintr (pollCall s P_SOCKET_IO_CONDITION_POLLOUT) rest errno
+        have h2 := pollLoop_errno (pollCall s P_SOCKET_IO_CONDITION_POLLOUT) (dropPollEintr rest errno).1 (dropPollEintr rest errno).2 errno
+        simp only [LoopR.obs, Prod.mk.injEq] at h1
+        obtain ⟨h1f, h1r, _⟩ := h1
+        obtain ⟨h2f, h2r, _⟩ := h2
+        rw [← h1f] at h2f
+        rw [← h1r] at h2r
+        generalize pollLoop (pollCall s P_SOCKET_IO_CONDITION_POLLOUT) rest errno = P at h2f h2r ⊢
+        generalize pollLoop (pollCall s P_SOCKET_IO_CONDITION_POLLOUT) (dropPollEintr rest errno).1 errno = Q at h2f h2r ⊢
+        cases hp : P.fin <;> cases hq : Q.fin <;> simp only [hp, hq, LoopEnd.eqv] at h2f ⊢
+        · subst h2f
+          rw [← h2r]
+          cases P.rest with
+          | nil => simp [sameUpToStaleErrno]
+          | cons g rest' =>
+            simp only []
+            by_cases hs : g.sys ≠ .getsockopt
+            · simp [hs, sameUpToStaleErrno]
+            · simp only [hs, if_false]
+              cases g.ret with
+              | err x => simp [sameUpToStaleErrno, failOut, PErr.eqv_refl]
+              | ok v => by_cases hv : g.val = 0 <;> simp [hv, sameUpToStaleErrno, failOut, PErr.eqv_refl]
+        · simp [sameUpToStaleErrno, failOut, h2f]
+        · simp [sameUpToStaleErrno, h2f]
+    · simp [hw, sameUpToStaleErrno, failOut, PErr.eqv_refl]
 
 /-- after `dropRetries` nothing is left to retry: on the reduced script the loop of a blocking data
     call makes at most one `poll` and one data call (so the equalities above really compare with a
@@ -271,5 +347,102 @@ theorem length_truncated_witness : toSocklen (2 ^ 32 + 1) = 1 := by decide
 example : ∃ r, call demoSock (.send (some [9, 8, 7]) 3) [pollR (.ok 1), sendR (.err EINTR), pollR (.ok 1), sendR (.ok 2), sendR (.ok 1)] = .ok r
     ∧ r.out.ret = 2 ∧ r.rest = [sendR (.ok 1)] ∧ r.out.err = none := by
   refine ⟨_, rfl, ?_, ?_, ?_⟩ <;> decide
+
+/-- for **every** API call and script: each `poll` in the log is the socket's own wait, and each data call
+    (send, sendto, recv, recvfrom, accept, connect) is the one data call of that API function with the caller's
+    buffer, `(socklen_t) buflen` and the flags of T6 — on every retry -/
+theorem data_calls_carry_callers_arguments (s : Sock) (c : Call) (script : Script) (e : Int) (r : CallResult)
+    (h : call s c script e = .ok r) : ∀ ev ∈ r.tr, Allowed s c ev :=
+  TrAll.of_call s c (callM_allowed s c) script e r h
+
+/-! ## 5. `no_sigpipe`
+
+What the code does (T6): `send` is given `MSG_NOSIGNAL`; **`sendto` is given flags 0**, so for
+`p_socket_send_to` the only protection is the process-wide `signal (SIGPIPE, SIG_IGN)` of
+`p_socket_init_once` (run by `p_libsys_init`).  Hence, the kernel keeping its contract (a write to a
+vanished peer with MSG_NOSIGNAL or with SIGPIPE ignored fails with EPIPE / ECONNRESET and raises nothing),
+the caller gets an error outcome, not a signal. -/
+
+/-- every `send` issued by any API call carries MSG_NOSIGNAL -/
+theorem no_sigpipe_send (s : Sock) (c : Call) (script : Script) (e : Int) (r : CallResult)
+    (h : call s c script e = .ok r) :
+    ∀ ev ∈ r.tr, ∀ fd off len flags data, ev.call = .send fd off len flags data → flags.toNat &&& MSG_NOSIGNAL.toNat ≠ 0 := by
+  intro ev hev fd off len flags data hc
+  rcases data_calls_carry_callers_arguments s c script e r h ev hev with h1 | ⟨cond, h1⟩ | h1
+  · simp [hc, criticalSys, Issued.sys] at h1
+  · simp [hc, pollCall] at h1
+  · rw [hc] at h1
+    cases c <;> simp [dataCallOf] at h1
+    case receive bn n => cases bn <;> simp [dataCallOf, recvCall] at h1
+    case receiveFrom w bn n => cases bn <;> simp [dataCallOf, recvfromCall] at h1
+    case send b n =>
+      cases b <;> simp [dataCallOf, sendCall] at h1
+      obtain ⟨_, _, _, hf, _⟩ := h1
+      subst hf; decide
+    case sendTo a b n => cases a <;> cases b <;> simp [dataCallOf, sendtoCall] at h1
+    case connect a => cases a <;> simp [dataCallOf, connCall] at h1
+
+/-- `sendto` is issued with flags 0: **no** MSG_NOSIGNAL (this is the code as it is) … -/
+theorem sendto_has_no_nosignal : sendtoFlags.toNat &&& MSG_NOSIGNAL.toNat = 0 := by decide
+
+/-- … so `p_socket_send_to` relies on `p_socket_init_once` having set SIGPIPE to SIG_IGN for the whole process -/
+theorem no_sigpipe_send_to_partial :
+    runM initOnce [{ sys := .signal, ret := .ok 0 }] 0 =
+      .ok ((), { script := [], errno := 0 }, [⟨.signal SIGPIPE true, { sys := .signal, ret := .ok 0 }⟩]) := by
+  rfl
+
+/-- a vanished peer: the kernel answers EPIPE (or ECONNRESET); the blocking caller gets `−1` and an error with that
+    native code (PErrorIO FAILED — the table has no entry for them), after exactly one `send` -/
+theorem vanished_peer_is_an_error (s : Sock) (hc : s.closed = false) (hb : s.blocking = true) (b : Bytes) (n : Nat) (hn : n ≠ 0)
+    (x : Int) (hx : x = EPIPE ∨ x = ECONNRESET) (rest : Script) (e : Int) :
+    (call s (.send (some b) n) ({ sys := .poll, ret := .ok 1 } :: { sys := .send, ret := .err x } :: rest) e).toOption.map
+      (fun r => (r.out.ret, r.out.err, r.rest)) =
+    some (-1, some { code := P_ERROR_IO_FAILED, native := x, msg := "Failed to call send() on socket" }, rest) := by
+  rw [send_eq s hc b n hn]
+  have hs : startPhase (sendCfg s b n) = .wait := by simp [startPhase, sendCfg, loopCfg, hb]
+  have hx4 : x ≠ EINTR := by rcases hx with h | h <;> (subst h; decide)
+  have hio : ioFromSystem x = P_ERROR_IO_FAILED := by rcases hx with h | h <;> (subst h; decide)
+  have hd : dataStep (sendCfg s b n) { sys := .send, ret := .err x } =
+      .fail { code := P_ERROR_IO_FAILED, native := x, msg := "Failed to call send() on socket" } x := by
+    have : ¬ ((sendCfg s b n).blocking = true ∧ ioFromSystem x = P_ERROR_IO_WOULD_BLOCK) := by
+      rw [hio]; intro h; exact absurd h.2 (by decide)
+    simp [dataStep, hx4, hio, sendCfg, loopCfg]
+    intro _; decide
+  rw [hs, ioLoop_wait_cons]
+  have hp : pollStep { sys := .poll, ret := .ok 1 } e = .ready := by simp [pollStep]
+  simp only [ne_eq, not_true_eq_false, if_false, hp]
+  rw [ioLoop_data_cons]
+  have hsys : (sendCfg s b n).call.sys = Sys.send := by simp [sendCfg, loopCfg, sendCall, Issued.sys]
+  simp [hsys, hd, LoopR.cons, ofLoop, failOut, Except.toOption]
+
+/-! ## 6. `connect_blocking` -/
+
+/-- `p_socket_connect` on an open socket **is**: the `connect()` loop (EINTR → call again), then
+    `connectAfter`: result 0 → TRUE, connected; `errno` mapping to IN_PROGRESS / WOULD_BLOCK → in blocking mode
+    wait for POLLOUT with the socket's timeout (`pollLoop`, EINTR → poll again) and let
+    `getsockopt (SO_ERROR)` decide (0 → TRUE, connected; `v` → FALSE with (`ioFromSystem v`, `v`), not connected),
+    in non-blocking mode report it at once; any other `errno` → that error. -/
+theorem connect_blocking (s : Sock) (hc : s.closed = false) (sa : Bytes) (script : Script) (e : Int) :
+    call s (.connect (.native sa)) script e = connectResult s (connLoop (connCall s sa) script e) :=
+  connect_eq s hc sa script e
+
+/-- reading of `connect_blocking` on the canonical script: EINTR, then EINPROGRESS, an interrupted wait, ready, SO_ERROR = 0 -/
+example : (call demoSock (.connect (.native [2, 0, 0, 80, 127, 0, 0, 1]))
+      [{ sys := .connect, ret := .err EINTR }, { sys := .connect, ret := .err EINPROGRESS }, pollR (.err EINTR), pollR (.ok 1),
+       { sys := .getsockopt, ret := .ok 0, val := 0 }]).toOption.map
+      (fun r => (r.out.ret, r.sock.connected, r.tr.map (·.call.sys))) =
+    some (1, true, [.connect, .connect, .poll, .poll, .getsockopt]) := by decide
+
+/-- … and with SO_ERROR = ECONNREFUSED -/
+example : (call demoSock (.connect (.native [2, 0, 0, 80, 127, 0, 0, 1]))
+      [{ sys := .connect, ret := .err EINPROGRESS }, pollR (.ok 1), { sys := .getsockopt, ret := .ok 0, val := ECONNREFUSED }]).toOption.map
+      (fun r => (r.out.ret, r.sock.connected, r.out.err.map (fun e => (e.code, e.native)))) =
+    some (0, false, some (P_ERROR_IO_CONNECTION_REFUSED, ECONNREFUSED)) := by decide
+
+/-- non-blocking: in progress is reported at once, one native call -/
+example : (call { demoSock with blocking := false } (.connect (.native [2, 0, 0, 80, 127, 0, 0, 1]))
+      [{ sys := .connect, ret := .err EINPROGRESS }, pollR (.ok 1)]).toOption.map
+      (fun r => (r.out.ret, r.out.err.map (·.code), r.tr.length, r.rest.length)) =
+    some (0, some P_ERROR_IO_IN_PROGRESS, 1, 1) := by decide
 
 end PV.Socket
